@@ -142,6 +142,7 @@ func runPrioReal(sc PrioRealScenario) *prioRealResult {
 	var stop, graceful, cancel func()
 	var addInput func(ch <-chan PItem, p uint)
 	var removeInput func(p uint)
+	var outLen func() int // v1: length of the harness-owned output
 	ctx, cancelCtx := context.WithCancel(context.Background())
 	defer cancelCtx()
 
@@ -179,6 +180,7 @@ func runPrioReal(sc PrioRealScenario) *prioRealResult {
 		errCh = d.Err()
 		stop, graceful, cancel = d.Stop, d.GracefulStop, cancelCtx
 		addInput, removeInput = d.AddInput, d.RemoveInput
+		outLen = func() int { return len(out) }
 		for i := 0; i < int(sc.H); i++ {
 			hwg.Add(1)
 			go func() {
@@ -369,6 +371,15 @@ wait:
 	case <-time.After(20 * time.Second):
 		res.Stuck = "handler / producer goroutines of the harness did not end after termination"
 		return res
+	}
+	// C16 (load-robust part): the discipline has terminated and every handler of the harness
+	// has left, so nobody reads or writes the harness-owned output any more - it must not grow
+	if outLen != nil && stopIssued.Load() {
+		n0 := outLen()
+		time.Sleep(2 * time.Millisecond)
+		if n1 := outLen(); n1 > n0 {
+			fail("C16", "output-after-stop-real", "the output held %d items after the stop had completed and every handler had left, and %d items 2ms later: written after completion", n0, n1)
+		}
 	}
 	recMu.Lock()
 	defer recMu.Unlock()
